@@ -170,6 +170,19 @@ def _sphero(case, rec):
         return
     nt = _finish(rec, shape, P, kinds, want, dist, size + r, sig, case)
     band = bool(np.any((sd > 0) & want & (dist > MARGIN * (size + r))))
+    # same questions after the core has been moved through its public handle: the answers must move with it
+    tv = np.array([0.37, -0.21, 0.53]) * (size + r)
+    cen = call(getattr, shape.polyhedron, "centroid")
+    if not isinstance(cen, Raised):
+        mv = call(setattr, shape.polyhedron, "centroid", np.asarray(cen) + tv)
+        if isinstance(mv, Raised):
+            rec.fail("move_core_raised", dict(sig, type=mv.type), msg=mv.msg)
+        else:
+            got2 = call(shape.is_inside, P + tv)
+            ok2 = not isinstance(got2, Raised) and np.asarray(got2).shape == (len(P),)
+            safe = dist > 10 * MARGIN * (size + r)
+            rec.check(ok2 and np.array_equal(np.asarray(got2)[safe], want[safe]), "membership_after_moving_core", sig,
+                      differing=int(np.sum(np.asarray(got2)[safe] != want[safe])) if ok2 else repr(got2)[:80])
     rec.label("ConvexSpheropolyhedron", "r=0" if r == 0 else "r>0", "rounding_band_point" if band else None)
     rec.nontrivial = bool(nt) or band
 
